@@ -153,6 +153,14 @@ def _c03_one_draw():
 
 
 C03_UNITS = _c03_one_draw() + [
+    plain("c03_zipf_step_f64", "c03", ["C03"], "Zipf::sample (one iteration)", "src/zipf.rs", [("n", "f64"), ("s", "f64"), ("words", "words2")],
+          "all (n, s) in E, all words: a returned rank is never < 1; debug assertions hold. Upper bound x <= n and NaN-freedom not claimed (need accuracy of powf)",
+          kind="bounded", tier="thorough", bound="one iteration of the rejection loop (unwind 1, no unwinding assertion); every iteration starts from the same state", timeout=3600, extra=["--no-unwinding-checks"],
+          stubs=["pow", "log", "exp", "floor"], replay={"kind": "sampler", "id": "zipf", "float": "f64"}),
+    plain("c03_zeta_step_f64", "c03", ["C03"], "Zeta::sample (one iteration)", "src/zeta.rs", [("s", "f64"), ("words", "words2")],
+          "all s in E, all words: the value is >= 1 and not NaN; the internal debug_assert!(x >= 1) holds",
+          kind="bounded", bound="one iteration of the rejection loop (unwind 1, no unwinding assertion)", timeout=1800, extra=["--no-unwinding-checks"],
+          stubs=["pow", "floor"], replay={"kind": "sampler", "id": "zeta", "float": "f64"}),
     dict(plain("kf_gumbel_inf_f64", "c03", ["C03"], "Gumbel::sample", "src/gumbel.rs", [], "pinned known finding: Gumbel(0,1) at word u64::MAX is +inf", stubs=["log"]), expect="refuted"),
     dict(plain("kf_frechet_neg_inf_f64", "c03", ["C03"], "Frechet::sample", "src/frechet.rs", [], "pinned known finding: Frechet(0,1,1) at word u64::MAX is -inf", stubs=["log", "pow"]), expect="refuted"),
 ]
@@ -241,6 +249,7 @@ C11_UNITS = [
           "output.len() != sample_len() panics (should_panic harness)", kind="bounded", bound="one concrete instance (len 2 distribution, len 3 buffer)", timeout=900, stubs=["sqrt_c"]),
 ]
 C11_UNITS[-1]["should_panic"] = True
+C11_UNITS[0]["tier_by_prop"] = {"C04": "thorough"}     # 8 minutes: part of C11's quick tier, of C04's thorough tier
 C11_UNITS += [
 ]
 
